@@ -68,7 +68,7 @@
 EXTENDS Integers, Sequences, FiniteSets, TLC
 
 CONSTANTS REQ,      \* request ids (one per client order id)
-          T,        \* request timeout (a positive duration)
+          T,        \* request timeout (a duration >= 0; 0: due at the accept instant)
           ACCEPT,   \* instants at which the model checker lets requests arrive
           DELAY,    \* client response delays (durations >= 0), NEVER is added
           EX,       \* the exchange index of this manager
